@@ -1,4 +1,5 @@
 import Driver.Codec
+import PGT.Model.Spec
 /-
 Model driver: `pgtmodel <case.json>` reads op lines on stdin and prints one canonical result per line.
 -/
@@ -35,8 +36,123 @@ def structArg (j : Json) : Except String GoVal :=
   | .str "zero" => pure (.struct [])
   | _ => parseGo j
 
+/-- pseudo diagnostics list for the spec predicates: only emptiness matters there -/
+def diagsOf (j : Json) : List Diag := if (arrD j "diags").isEmpty then [] else [Diag.writeGeneral "impl"]
+
+def diagStrings (j : Json) : List String := strList j "diags"
+
+def panicked (j : Json) : Bool := match j.getObjVal? "panic" with | .ok .null => false | .ok _ => true | .error _ => true
+
+def tfOf (j : Json) : Except String TfVal := do parseTf (← fld j "tf")
+def objOf (j : Json) : Except String GoVal := do parseGo (← fld j "obj")
+
+def trigList (l : List (String × Bool)) : Json := .arr ((l.filter (·.2)).map (fun x => Json.str x.1)).toArray
+
+/-- evaluate the property predicates of `PGT.Spec` (and the triggers of the known findings) on a result
+produced by the real generated code -/
+def checkOp (ctx : Ctx) (orig impl : Json) : Except String Json := do
+  let ty ← str orig "type"
+  let tag := strD orig "tag"
+  match findRoot ctx ty with
+  | none => return Json.mkObj [("error", .str ("unknown type " ++ ty))]
+  | some m =>
+    let b (x : Bool) : Json := .bool x
+    let res (checks : List (String × Json)) (trig : List (String × Bool)) : Json :=
+      Json.mkObj [("checks", Json.mkObj checks), ("triggers", trigList trig)]
+    match tag with
+    | "to-empty" =>
+      let obj ← structArg (← fld orig "obj")
+      let trig := [("F1b", Spec.Trig.f1b m obj), ("F5", Spec.Trig.f5 m obj)]
+      if panicked impl then return res [("C03", b false), ("C20", b false), ("C07", b false), ("C02", b false)] trig
+      let tf ← tfOf impl
+      let renders := match tf with | .obj _ _ as _ => Spec.rendersFields m.fields obj (as.getD []) | _ => false
+      return res [("C03", b (Spec.c03Check m false (diagsOf impl) tf)), ("C20", b (Spec.c20Check m obj tf)),
+                  ("C07", b (Spec.c07ToCheck m obj tf)), ("C02", b renders)] trig
+    | "rt" =>
+      let steps := arrD impl "steps"
+      let origObj ← structArg (← fld ((arrD orig "steps")[0]!) "obj")
+      let mut trig := [("F1b", Spec.Trig.f1b m origObj), ("F5", Spec.Trig.f5 m origObj)]
+      if steps.size ≥ 1 && !panicked steps[0]! then
+        let tf0 ← tfOf steps[0]!
+        trig := trig ++ [("F2", Spec.Trig.f2 m tf0 (.struct []))]
+      if steps.size < 2 || steps.any panicked || steps.any (fun s => !(arrD s "diags").isEmpty) then
+        return res [("C04", b false), ("C19", b false)] trig
+      let back ← objOf steps[1]!
+      let ok := Spec.c04Check m origObj back
+      return res [("C04", b ok), ("C19", b ok)] trig
+    | "from" | "from-payload" =>
+      let tf ← objArg m (← fld orig "tf")
+      let prior ← structArg (← fld orig "prior")
+      let trig := [("F2", Spec.Trig.f2 m tf prior), ("F3", Spec.Trig.f3 m prior), ("F4", Spec.Trig.f4 tf), ("F7", Spec.Trig.f7 m prior)]
+      if panicked impl then return res [("C05", b false), ("C07", b false)] trig
+      let r ← objOf impl
+      return res [("C05", b (Spec.c05Check m tf false (diagsOf impl) r)), ("C07", b (Spec.c07FromCheck m tf r))] trig
+    | "from-malformed" =>
+      let tf ← objArg m (← fld orig "tf")
+      let prior ← structArg (← fld orig "prior")
+      let trig := [("F2", Spec.Trig.f2 m tf prior)]
+      if panicked impl then return res [("C06", b false)] trig
+      let expected := match tf with | .obj _ _ as _ => (Spec.c06FromLevel m.fields (as.getD [])).map encDiag | _ => []
+      return res [("C06", b (expected.all fun d => (diagStrings impl).contains d))] trig
+    | "to-malformed" =>
+      let obj ← structArg (← fld orig "obj")
+      let trig := [("F1b", Spec.Trig.f1b m obj)]
+      if panicked impl then return res [("C06", b false)] trig
+      let tfIn ← objArg m (← fld orig "tf")
+      let tfOut ← tfOf impl
+      let atys := match tfIn with | .obj _ _ _ atys => atys.getD [] | _ => []
+      let expected := (Spec.c06ToLevel m.fields atys).map encDiag
+      let written := Spec.c06ToCheck m tfIn false (Spec.c06ToLevel m.fields atys) tfOut
+      return res [("C06", b (written && expected.all fun d => (diagStrings impl).contains d))] trig
+    | "echo" =>
+      let steps := arrD impl "steps"
+      let plan ← objArg m (← fld orig "tf")
+      let mut trig := [("F2", Spec.Trig.f2 m plan (.struct [])), ("F5", Spec.Trig.f5Plan m plan)]
+      if steps.size ≥ 1 && !panicked steps[0]! then
+        trig := trig ++ [("F1b", Spec.Trig.f1b m (← objOf steps[0]!))]
+      if steps.size < 3 || steps.any panicked then return res [("C08", b false)] trig
+      let first ← objOf steps[0]!
+      let echoed ← tfOf steps[1]!
+      let second ← objOf steps[2]!
+      return res [("C08", b ((steps.all fun s => (arrD s "diags").isEmpty) && Spec.c08Check m plan first echoed second))] trig
+    | "refresh" =>
+      let steps := arrD impl "steps"
+      let osteps := arrD orig "steps"
+      let mut ok := true
+      let mut src : GoVal := .struct []
+      let mut prevSrc : Option GoVal := none
+      let mut prevTf : TfVal := emptyObj m
+      let mut f1b := false
+      let mut f6 := false
+      if steps.size != osteps.size then ok := false
+      for i in [0:osteps.size] do
+        let o := osteps[i]!
+        if strD o "do" == "to" then
+          match o.getObjVal? "obj" with
+          | .ok g =>
+            prevSrc := if i == 0 then none else some src
+            src ← structArg g
+            f1b := f1b || Spec.Trig.f1b m src
+            match prevSrc with
+            | some p => f6 := f6 || Spec.Trig.f6 12 m.fields p src
+            | none => pure ()
+          | _ => pure ()
+          if i < steps.size then
+            let r := steps[i]!
+            if panicked r then ok := false
+            else
+              let tf ← tfOf r
+              let same := match o.getObjVal? "obj" with | .ok _ => false | _ => true
+              ok := ok && Spec.c09StepCheck m src (diagsOf r) prevTf tf
+              if same then ok := ok && TfVal.beq prevTf tf
+              prevTf := tf
+      return res [("C09", b ok)] [("F1b", f1b), ("F6", f6)]
+    | _ => return res [] []
+
 def runOp (ctx : Ctx) (op : Json) : Except String Json := do
   let kind ← str op "op"
+  if kind == "check" then
+    return ← checkOp ctx (← fld op "orig") (← fld op "impl")
   if kind == "emit" then
     match emit ctx.c with
     | .fail e => return Json.mkObj [("fail", .str (reprStr e))]
@@ -79,6 +195,9 @@ def runOp (ctx : Ctx) (op : Json) : Except String Json := do
           match r with
           | .ok x => obj := x.obj
           | _ => break
+        | "peek" =>
+          -- decode the current object into a fresh struct without changing the current struct
+          out := out.push (fromJson (copyFrom ov m tf (.struct [])))
         | _ => throw "bad step"
       return Json.mkObj [("steps", .arr out)]
     | _ => return Json.mkObj [("error", .str "unknown op")]
